@@ -217,6 +217,9 @@ class CaseRun:
         self.cancel_step = [None] * n
         self.cur_step = -1
         self.unreg_outcomes = []
+        self.obj_truth = {}                           # proc index -> current truth value of the registered object
+        self.obj_invs = {}                            # proc index -> number of invocations delivered so far
+        self.falsy_at_call = [False] * n
         self._big_cache = {}
         self._big_target = {}
 
@@ -242,7 +245,10 @@ class CaseRun:
             def ep(*args, **kwargs):
                 bound = None
                 if style == "method":
-                    bound, args = args[0], args[1:]
+                    if args:
+                        bound, args = args[0], args[1:]
+                    else:
+                        bound = MISSING       # not even "self" arrived
                 i = run._enter(pi, bound, args, kwargs)
                 if i is None:
                     return None
@@ -312,7 +318,18 @@ class CaseRun:
             fn = self._make_endpoint(pi, proc)
             if proc["style"] == "method":
                 m = wamp.register(proc_uri(pi), options=opts)(fn)
-                obj = type("Obj%d" % pi, (object,), {"m": m})()
+                # the object's truth value is application state: always truthy (plain object), always falsy, or changing
+                # between invocations (e.g. an initially filled, later empty container-like service)
+                run = self
+                members = {"m": m}
+                truth = proc.get("truth")
+                if truth:
+                    self.obj_truth[pi] = truth != "falsy"           # value at registration time
+                    if proc.get("via") == "len":
+                        members["__len__"] = lambda self_, _pi=pi: 1 if run.obj_truth[_pi] else 0
+                    else:
+                        members["__bool__"] = lambda self_, _pi=pi: bool(run.obj_truth[_pi])
+                obj = type("Obj%d" % pi, (object,), members)()
                 self.objs[pi] = obj
                 self.reg_outcomes[pi] = Outcome(s.register(obj))
             else:
@@ -544,6 +561,9 @@ class CaseRun:
         if len(self.calls[i]) > 1:
             return None
         self.progress_fn[i] = prog if callable(prog) else None
+        plan_ = self.invs[i]["plan"]
+        if plan_.get("progress_unconditional") and plan_.get("progress") and prog is None:
+            prog(*self._progress_payload(i, "tag", 0)[0])       # TypeError: 'NoneType' object is not callable
         for pk in self.invs[i]["plan"].get("progress", ()):
             self._emit_progress(i, pk)
         if self.invs[i]["plan"].get("unreg_in_endpoint"):
@@ -556,6 +576,8 @@ class CaseRun:
         d = {}
         if inv.get("rp"):
             d["receive_progress"] = True
+        elif inv.get("rp_false"):
+            d["receive_progress"] = False        # the caller declined explicitly (legal for a dealer to forward)
         d.update(inv.get("caller") or {})
         shape = inv["shape"]
         m = [68, inv["rid"], 9000 + inv["proc"], d]
@@ -660,6 +682,14 @@ class CaseRun:
                 in_this_feed.add(i)
                 if inv["shape"] == "none":
                     self.untagged.setdefault(inv["proc"], []).append(i)
+                pi_ = inv["proc"]
+                truth = self.case["procs"][pi_].get("truth")
+                if truth:
+                    k = self.obj_invs.get(pi_, 0)
+                    self.obj_invs[pi_] = k + 1
+                    # "late-falsy": truthy when registered, falsy from the first invocation on; "toggle": F, T, F, ...
+                    self.obj_truth[pi_] = {"truthy": True, "falsy": False, "late-falsy": False, "toggle": k % 2 == 1}[truth]
+                    self.falsy_at_call[i] = not self.obj_truth[pi_]
                 chunks.append(rp.encode(self._inv_message(i)))
             elif it[0] == "int":
                 i = it[1]
@@ -824,10 +854,19 @@ class CaseRun:
         return False
 
     # -- oracle -------------------------------------------------------------------------------------
+    def entry_raises(self, i):
+        """The endpoint uses details.progress unconditionally although the caller did not ask for progress."""
+        inv = self.invs[i]
+        plan = inv["plan"]
+        return bool(plan.get("progress_unconditional") and plan.get("progress") and not inv.get("rp")
+                    and self.case["procs"][inv["proc"]].get("det") is not None)
+
     def inv_class(self, i):
         """Behaviour class of an invocation as PLANNED + the size arithmetic of the plain codec."""
         inv = self.invs[i]
         what, kind = inv["plan"]["out"]
+        if self.entry_raises(i):
+            return "error-with-traceback" if (self.case.get("traceback_app") and self.limit is not None and self.limit <= 4096) else "error"
         if what == "ret":
             if kind == "unser-big":
                 return "result-unser-bigrepr"
@@ -940,7 +979,7 @@ class CaseRun:
             terms = [w for w in seq if w[0] in "YE"]
             progs = [w for w in seq if w[0] == "P"]
             ncalls = len(self.calls[i])
-            completed = plan["mode"] != "pending" or self.resolved[i]
+            completed = plan["mode"] != "pending" or self.resolved[i] or self.entry_raises(i)
             # ---- which terminal reply is due
             if self.cancelled[i]:
                 cause, want_n, want = "interrupt-while-pending", 1, "E"
